@@ -199,3 +199,136 @@ def c10_order(rep, prop='C10'):
     rep.trusted.append('assumed no-raise after the first mutation: _put_src, _offset, _set_ast, _touchall, '
                        '_unmake_fst_tree, child_from_path, child_path, astfield.set, walk; delegates listed as atomic raise '
                        'before mutating or complete (their own order obligation is checked too)')
+
+
+# ---------------------------------------------------------------------------------------------------------------------
+# C12: handler-level order obligations with a computed (transitive, by-name) mutator set
+
+SEED_MUTATORS = {'_put_src', '_offset', '_offset_lns', '_set_ast', '_set_field', '_indent_lns', '_dedent_lns',
+                 '_redent_lns', '_set_start_pos', '_set_end_pos', '_set_ctx', '_unmake_fst_tree'}
+MAY_RAISE_RE = r'^(fixup_one_index|fixup_slice_indices|fixup_field_body|code_as_\w+|code_as|_code_to_slice\w*|validate_\w+|_validate\w*|_coerce\w*|parse_\w+|fromsrc|clip_src_loc|_code_as_lines)$'
+
+
+NON_MUTATING_PREFIXES = ('code_as', 'parse', '_coerce', 'copy', 'get', '_get', '_loc', '_is', 'is_', '_next', '_prev', 'walk',
+                         'pars', 'dump', 'verify')
+
+
+def transitive_mutators():
+    """function / method NAMES of src/fst that (transitively, by name) reach a seed mutator or store into an AST field"""
+    import glob
+    import os
+    import re
+    from pyvc import frontend
+    bodies = {}
+    for path in sorted(glob.glob(os.path.join(frontend.SRC, '*.py'))):
+        tree = frontend.module(os.path.basename(path)[:-3]).tree
+        for n in ast.walk(tree):
+            if isinstance(n, ast.FunctionDef):
+                bodies.setdefault(n.name, []).append(n)
+    calls = {}
+    for name, fns in bodies.items():
+        cs = set()
+        for fn in fns:
+            for n in ast.walk(fn):
+                if isinstance(n, ast.Call):
+                    if isinstance(n.func, ast.Name):
+                        cs.add(n.func.id)
+                    elif isinstance(n.func, ast.Attribute):
+                        cs.add(n.func.attr)
+        calls[name] = cs
+    mut = set(SEED_MUTATORS)
+    changed = True
+    while changed:
+        changed = False
+        for name, cs in calls.items():
+            if name in mut or not (cs & mut) or re.match(MAY_RAISE_RE, name) or name.startswith(NON_MUTATING_PREFIXES):
+                continue
+            mut.add(name)
+            changed = True
+    return mut
+
+
+def c12_handlers(rep, prop='C12'):
+    """For every function reachable from _PUT_SLICE_HANDLERS / _PUT_ONE_HANDLERS (and the two dispatchers): argument
+    validation, code coercion and index fix-up (everything that raises by contract) precede the first call that may
+    mutate the target tree.  A handler for which the obligation does not hold on the unchanged tree, or in which the
+    analysis sees no mutator or no may-raise operation, is NOT registered (listed as undecided in evidence)."""
+    import re
+    from pyvc import frontend
+    mut = transitive_mutators()
+    global MUTATING_METHODS
+    saved = set(MUTATING_METHODS)
+    MUTATING_METHODS |= mut
+    registered, skipped = [], []
+    try:
+        for modname, tables in (('fst_put_slice', ['_PUT_SLICE_HANDLERS']), ('fst_put_one', ['_PUT_ONE_HANDLERS'])):
+            mod = frontend.module(modname)
+            names = set()
+            for t in tables:
+                d = frontend.module_assign(modname, t)
+                for v in d.values:
+                    for n in ast.walk(v):
+                        if isinstance(n, ast.Name) and n.id.startswith('_put_'):
+                            names.add(n.id)
+            names |= {'_put_slice' if modname == 'fst_put_slice' else '_put_one'}
+            funcs = {n.name: n for n in mod.tree.body if isinstance(n, ast.FunctionDef)}
+            for nm in sorted(names):
+                fn = funcs.get(nm)
+                if fn is None:
+                    continue
+                may = set()
+                for n in ast.walk(fn):
+                    if isinstance(n, ast.Call):
+                        cn = n.func.id if isinstance(n.func, ast.Name) else getattr(n.func, 'attr', '')
+                        if re.match(MAY_RAISE_RE, cn):
+                            may.add(cn)
+                a = Analysis(fn, {'self', 'root', 'ast', 'body', 'parent'}, may, set())
+                probs = a.run()
+                ident = f'{modname}:{nm}'
+                if a.n_mut and a.n_raise and (not probs or nm in BASELINE_HANDLERS):
+                    try:
+                        loc = frontend.locate(ident)
+                    except frontend.ExtractionError:
+                        skipped.append((nm, 'not a live definition for this Python version'))
+                        continue
+
+                    class _S:
+                        name = 'raise-before-mutate order (structural, handler)'
+                        notes = f'may_raise={sorted(may)}'
+                    rep.function(loc, _S)
+                    name = f'{prop}.order.handlers.{nm}'
+                    rep.other('structural', name, not probs,
+                              detail='; '.join(probs[:3]) or f'{a.n_raise} may-raise operations precede the first of '
+                              f'{a.n_mut} possibly-mutating calls on every path', key=name,
+                              replay={'function': ident, 'problems': probs[:10],
+                                      'verifier_output': 'all-paths order analysis with the transitive mutator set'})
+                    registered.append(nm)
+                else:
+                    skipped.append((nm, 'no mutator/raise seen' if not probs else probs[0][:80]))
+    finally:
+        MUTATING_METHODS.clear()
+        MUTATING_METHODS.update(saved)
+    for nm in sorted(BASELINE_HANDLERS - set(registered)):
+        rep.undecided(f'{prop}.order.handlers.{nm}', 'the order obligation held for this handler on the pinned tree but can no '
+                      'longer be generated (handler removed/renamed, or no mutator / may-raise operation recognised)')
+    rep.extra['order_handlers_registered'] = len(registered)
+    rep.extra['order_handlers_not_registered'] = skipped[:80]
+    if len(registered) < len(BASELINE_HANDLERS) // 2:
+        rep.checker_error(f'only {len(registered)} handler order obligations could be generated')
+    return registered, skipped
+
+
+# handlers for which the obligation was generated and discharged on the pinned tree: a later failure is a violation,
+# not a silent de-registration
+BASELINE_HANDLERS = {
+    '_put_one_AnnAssign_simple', '_put_one_BoolOp_op', '_put_one_Constant_kind',
+    '_put_one_ExceptHandler_type', '_put_one_ImportFrom_level', '_put_one_ImportFrom_names',
+    '_put_one_Import_names', '_put_one_MatchAs_name', '_put_one_Tuple_elts',
+    '_put_one_comprehension_is_async', '_put_one_constant', '_put_one_exprlike_optional',
+    '_put_one_identifier_optional', '_put_one_identifier_required', '_put_one_op',
+    '_put_slice_Assign_targets', '_put_slice_Call_ClassDef_arglikes', '_put_slice_Call_args',
+    '_put_slice_ClassDef_bases', '_put_slice_Compare__all', '_put_slice_Delete_targets',
+    '_put_slice_Global_Nonlocal_names', '_put_slice_ImportFrom_names', '_put_slice_Import_names',
+    '_put_slice_MatchMapping__all', '_put_slice_Set_elts', '_put_slice_Tuple_elts',
+    '_put_slice_With_AsyncWith_items', '_put_slice_arguments', '_put_slice_comprehension_ifs',
+    '_put_slice_decorator_list', '_put_slice_pattern_attrlikes_patterns', '_put_slice_type_params'}
